@@ -29,7 +29,7 @@ HEADER = ('From Coq Require Import List ZArith Bool NArith. Import ListNotations
           'From SV Require Import C06.Model C06.Corr.\nOpen Scope Z_scope.\n')
 # the diagnostics each fault family aims at (informational: the property only asks for >= 1 error in the module)
 EXPECTED_DIAGNOSTIC = {
-    'operand-type': {'Stacked'}, 'arg-type': {'Stacked'}, 'arity': {'Stacked'}, 'typearg-arity': {'Stacked'},
+    'operand-type': {'Stacked'}, 'branch-type': {'Stacked'}, 'arg-type': {'Stacked'}, 'arity': {'Stacked'}, 'typearg-arity': {'Stacked'},
     'unbound-var': {'CannotResolveName'}, 'unresolved': {'CannotResolveClass', 'CannotResolveMember', 'CannotResolveModule', 'MissingExport', 'CannotResolveName'},
     'private': {'CannotResolveMember', 'MissingExport', 'CannotResolveClass'}, 'interface': {'MissingClassMemberDefinitions', 'Stacked'},
     'bound': {'IncompatibleSubType', 'Stacked'}, 'int-literal': {'InvalidSyntax'}, 'match-arm': {'NonExhaustiveMatch'},
